@@ -14,16 +14,27 @@ package deb
 // a numeric header column: blank means 0, otherwise the decimal value of the trimmed text
 pure func numz(s string) int { trimspace(s) == "" ? 0 : val(trimspace(s), 0, len(trimspace(s))) }
 
+// a numeric header column is acceptable: blank, or digits only (the columns are at most 12 wide)
+pure func numok(s string) bool { trimspace(s) == "" || alldig(trimspace(s), 0, len(trimspace(s))) }
+
+// a member name: padding removed, then one trailing '/' removed
+pure func membername(s string) string { hasSuffix(trimspace(s), "/") ? trimspace(s)[:len(trimspace(s))-1] : trimspace(s) }
+
 func toDecimal
   ensures result1 == nil ==> len(input) >= 1 && alldig(input, 0, len(input)) && result0 == val(input, 0, len(input)) && result0 >= 0
+  // completeness (C13): every unsigned decimal of at most 18 digits is accepted
+  ensures len(input) >= 1 && len(input) <= 18 && alldig(input, 0, len(input)) ==> result1 == nil
 
 func checkAr
   requires reader != nil
   ensures result1 == nil ==> result0 == 8 && len(fileOf(reader)) >= 8
   ensures result1 == nil ==> (forall k int :: 0 <= k && k < 8 ==> fileOf(reader)[k] == "!<arch>\n"[k])
+  // completeness (C13): a file that starts with the global magic is accepted, whatever way the reader reports its end
+  ensures !ioFails(reader) && len(fileOf(reader)) >= 8 && (forall k int :: 0 <= k && k < 8 ==> fileOf(reader)[k] == "!<arch>\n"[k]) ==> result1 == nil
 
 func LoadAr
   requires in != nil
+  ensures !ioFails(in) && len(fileOf(in)) >= 8 && (forall k int :: 0 <= k && k < 8 ==> fileOf(in)[k] == "!<arch>\n"[k]) ==> result1 == nil
   ensures result1 == nil ==> result0 != nil && fresh(result0) && result0.in == in && result0.offset == 8 && len(fileOf(in)) >= 8
   ensures result1 != nil ==> result0 == nil
 
@@ -35,7 +46,9 @@ func parseArEntry
   // each field comes from its own columns, with its own trimming; blank numeric columns are 0
   ensures result1 == nil ==> result0.Timestamp == numz(str(line[16:28])) && result0.OwnerID == numz(str(line[28:34]))
   ensures result1 == nil ==> result0.GroupID == numz(str(line[34:40])) && result0.Size == numz(str(line[48:58]))
-  ensures result1 == nil ==> result0.FileMode == trimspace(str(line[40:48]))
+  ensures result1 == nil ==> result0.FileMode == trimspace(str(line[40:48])) && result0.Name == membername(str(line[0:16]))
+  // completeness (C13): a header with the magic and four acceptable numeric columns is accepted
+  ensures len(line) == 60 && line[58] == 96 && line[59] == 10 && numok(str(line[16:28])) && numok(str(line[28:34])) && numok(str(line[34:40])) && numok(str(line[48:58])) ==> result1 == nil
   ensures result1 == nil ==> 0 <= result0.Size && result0.Size <= 9999999999
   ensures result1 == nil ==> result0.Data == nil
   loop 1:
@@ -44,7 +57,7 @@ func parseArEntry
     invariant visited(mk(entryField, "OwnerID", &entry.OwnerID)) ? entry.OwnerID == numz(str(line[28:34])) : entry.OwnerID == 0
     invariant visited(mk(entryField, "GroupID", &entry.GroupID)) ? entry.GroupID == numz(str(line[34:40])) : entry.GroupID == 0
     invariant visited(mk(entryField, "Size", &entry.Size)) ? entry.Size == numz(str(line[48:58])) : entry.Size == 0
-    invariant entry.FileMode == trimspace(str(line[40:48])) && entry.Data == nil
+    invariant entry.FileMode == trimspace(str(line[40:48])) && entry.Data == nil && entry.Name == membername(str(line[0:16]))
 
 func (*Ar).Next
   requires d != nil && d.in != nil && 0 <= d.offset && d.offset <= len(fileOf(d.in)) + 1
@@ -63,6 +76,17 @@ func (*Ar).Next
   ensures result1 == nil ==> d.offset == old(d.offset) + 60 + result0.Size + result0.Size % 2
   // end of archive is reported only at a clean end (nothing, or a lone newline, after the last member)
   ensures result1 == io.EOF ==> old(d.offset) + 1 >= len(fileOf(d.in))
+  // (C13) the member's fields are the header's own columns
+  ensures result1 == nil ==> result0.Name == membername(fileOf(d.in)[old(d.offset):old(d.offset)+16]) && result0.FileMode == trimspace(fileOf(d.in)[old(d.offset)+40:old(d.offset)+48])
+    by { if result1 == nil { assert str(line[0:16]) == fileOf(d.in)[old(d.offset):old(d.offset)+16]; assert str(line[40:48]) == fileOf(d.in)[old(d.offset)+40:old(d.offset)+48] } }
+  ensures result1 == nil ==> result0.Timestamp == numz(fileOf(d.in)[old(d.offset)+16:old(d.offset)+28]) && result0.OwnerID == numz(fileOf(d.in)[old(d.offset)+28:old(d.offset)+34])
+    by { if result1 == nil { assert str(line[16:28]) == fileOf(d.in)[old(d.offset)+16:old(d.offset)+28]; assert str(line[28:34]) == fileOf(d.in)[old(d.offset)+28:old(d.offset)+34] } }
+  ensures result1 == nil ==> result0.GroupID == numz(fileOf(d.in)[old(d.offset)+34:old(d.offset)+40]) && result0.Size == numz(fileOf(d.in)[old(d.offset)+48:old(d.offset)+58])
+    by { if result1 == nil { assert str(line[34:40]) == fileOf(d.in)[old(d.offset)+34:old(d.offset)+40]; assert str(line[48:58]) == fileOf(d.in)[old(d.offset)+48:old(d.offset)+58] } }
+  // (C13) completeness: a well-formed member is returned, and the end of the archive is reported as io.EOF
+  ensures !ioFails(d.in) && old(d.offset) + 60 <= len(fileOf(d.in)) && fileOf(d.in)[old(d.offset)+58] == 96 && fileOf(d.in)[old(d.offset)+59] == 10 && numok(fileOf(d.in)[old(d.offset)+16:old(d.offset)+28]) && numok(fileOf(d.in)[old(d.offset)+28:old(d.offset)+34]) && numok(fileOf(d.in)[old(d.offset)+34:old(d.offset)+40]) && numok(fileOf(d.in)[old(d.offset)+48:old(d.offset)+58]) && old(d.offset) + 60 + numz(fileOf(d.in)[old(d.offset)+48:old(d.offset)+58]) <= len(fileOf(d.in)) ==> result1 == nil
+    by { if count == 60 { assert str(line[16:28]) == fileOf(d.in)[old(d.offset)+16:old(d.offset)+28]; assert str(line[28:34]) == fileOf(d.in)[old(d.offset)+28:old(d.offset)+34]; assert str(line[34:40]) == fileOf(d.in)[old(d.offset)+34:old(d.offset)+40]; assert str(line[48:58]) == fileOf(d.in)[old(d.offset)+48:old(d.offset)+58] } }
+  ensures !ioFails(d.in) && old(d.offset) >= len(fileOf(d.in)) ==> result1 == io.EOF
   modifies d.offset
 
 // which member the loader (and the signature check) uses: the ONLY member with the given name prefix; two candidates
